@@ -117,6 +117,7 @@ func (p *Program) NewMachine() (*Machine, error) {
 		env:        map[string]value{},
 		initFailed: map[*ssa.Package]string{},
 		funcsHit:   map[*ssa.Function]int{},
+		fnSize:     map[*ssa.Function]int{},
 		stubsHit:   map[string]int{},
 		denyInit:   map[string]bool{},
 		Log:        p.cfg.Log,
@@ -173,7 +174,13 @@ func (p *Program) NewMachine() (*Machine, error) {
 	if to == 0 {
 		to = 20000
 	}
-	s, err := NewSolver(kind, to, nil)
+	var slog io.Writer
+	if lp := os.Getenv("GOSYM_SMTLOG"); lp != "" {
+		if f, ferr := os.OpenFile(fmt.Sprintf("%s.%d", lp, time.Now().UnixNano()%100000), os.O_CREATE|os.O_WRONLY|os.O_TRUNC, 0o644); ferr == nil {
+			slog = f
+		}
+	}
+	s, err := NewSolver(kind, to, slog)
 	if err != nil {
 		return nil, err
 	}
@@ -251,6 +258,7 @@ type Report struct {
 	InitFailed    map[string]string
 	Samples       [][]InputRec
 	TotalRuns     int
+	ForkSites     map[string]int
 }
 
 type workItem []decision
@@ -269,6 +277,7 @@ func (p *Program) Explore(o ExploreOpts) (*Report, error) {
 	}
 
 	var mu sync.Mutex
+	var witnessDone sync.Map
 	cond := sync.NewCond(&mu)
 	queue := []workItem{nil}
 	busy := 0
@@ -292,6 +301,10 @@ func (p *Program) Explore(o ExploreOpts) (*Report, error) {
 				return
 			}
 			machines[w] = m
+			m.witnessDone = &witnessDone
+			if os.Getenv("GOSYM_FORKSITES") != "" {
+				m.forkSites = map[string]int{}
+			}
 			m.limits = o.Limits
 			m.AllocBound = o.Alloc
 			defer m.Close()
@@ -315,6 +328,9 @@ func (p *Program) Explore(o ExploreOpts) (*Report, error) {
 				mu.Lock()
 				busy--
 				rep.TotalRuns++
+				if os.Getenv("GOSYM_PROGRESS") != "" && rep.TotalRuns%2000 == 0 {
+					fmt.Fprintf(os.Stderr, "progress %s: runs=%d queue=%d paths=%d t=%.0fs\n", o.Entry, rep.TotalRuns, len(queue), rep.Paths, time.Since(t0).Seconds())
+				}
 				rep.Decisions += res.Decisions
 				rep.Steps += res.Steps
 				switch res.Status {
@@ -390,6 +406,14 @@ func (p *Program) Explore(o ExploreOpts) (*Report, error) {
 			}
 			for k, n := range m.stubsHit {
 				rep.Stubs[k] += n
+			}
+			if m.forkSites != nil {
+				if rep.ForkSites == nil {
+					rep.ForkSites = map[string]int{}
+				}
+				for k, n := range m.forkSites {
+					rep.ForkSites[k] += n
+				}
 			}
 			for k, v := range m.InitFailures() {
 				rep.InitFailed[k] = v
